@@ -130,4 +130,10 @@ func main() {
 	}
 	fmt.Fprintln(out, "].")
 	fmt.Println(len(semi), len(legacy))
+	if len(os.Args) > 3 {
+		if err := writeGen(os.Args[2], os.Args[3]); err != nil {
+			fmt.Println("TRANSLATOR ERROR:", err)
+			os.Exit(3)
+		}
+	}
 }
